@@ -1,19 +1,18 @@
-\* C06 design configuration, thorough tier: closed state space of the two-layer model,
-\* archives of 0..2 members with 0..3 data bytes over {NL, x}, one shared file object
-\* (the by-name mode: MC_ArMember_byname.cfg, 0..2 data bytes)
+\* C06 design configuration, thorough tier, ArFile(filename=...) mode: every member re-opens the
+\* file by name and has a private file position; archives of 0..2 members with 0..2 data bytes
 CONSTANTS
   Bytes = {10, 120}
   Names = {1}
   MaxMembers = 2
-  MaxData = 3
-  RdSizes = {1, 2, 4}
-  RlSizes = {0, 1, 2, 4}
-  SeekMax = 4
+  MaxData = 2
+  RdSizes = {1, 2}
+  RlSizes = {0, 1, 2}
+  SeekMax = 3
   Ops = TRUE
   Hints = {1, 2}
   IterSingleLine = TRUE
   Emit = FALSE
-  Modes = {"shared"}
+  Modes = {"byname"}
   ClampReadline = TRUE
   PadOdd = TRUE
   SeekFirst = TRUE
